@@ -37,11 +37,12 @@ def run(prog):
     variants = {v["name"]: v["discr"] for v in prog.adt(OSC)["variants"]}
     named = set()
     for nm in ("kanata_parser::keys::str_to_oscode", "kanata_parser::keys::add_default_str_osc_mappings"):
-        g = prog.fn(nm)
-        res.fn(g)
-        for bi, si, st in g.all_rvalues():
-            if st["rv"]["k"] == "agg" and st["rv"].get("adt") == OSC:
-                named.add(st["rv"]["v"])
+        g0 = prog.fn(nm)
+        for g in [g0] + list(prog.closures_of(g0)):
+            res.fn(g)
+            for bi, si, st in g.all_rvalues():
+                if st["rv"]["k"] == "agg" and st["rv"].get("adt") == OSC:
+                    named.add(st["rv"]["v"])
     mx = max(variants[v] for v in named) if named else -1
     chk("named-keys-fit-row", 0 <= mx < rowlen, "a key name maps to OsCode %d which does not fit a %d-wide layer row" % (mx, rowlen))
     # deflocalkeys gateway: from_u16 result filtered by `< KEYS_IN_ROW`
